@@ -514,7 +514,8 @@ func (a *c16Acc) flip(b []byte) []byte {
 	if len(out) == 0 {
 		return []byte{byte(1 + a.rng.Intn(255))}
 	}
-	if a.hname != "mimc" {
+	if a.hname != "mimc" || len(out) < 32 {
+		// (a value shorter than one MiMC block only comes out of a tree that already misbehaves: any flip will do)
 		out[a.rng.Intn(len(out))] ^= 1 << uint(a.rng.Intn(8))
 		return out
 	}
@@ -576,7 +577,7 @@ func (a *c16Acc) verifySuite(level int) {
 				j++
 			}
 			m = c16m("leafother", "F")
-			m.set, m.val = 0, a.D[j]
+			m.set, m.val = 0, a.D[j%len(a.D)] // (n comes from the tree's reply: a misbehaving tree may report more leaves than exist)
 			a.Verify(m)
 		}
 		if a.hname != "mimc" {
